@@ -13,7 +13,7 @@ import PtaProofs.Lemmas.Worklist
 import PtaProofs.Lemmas.RuleBasics
 import PtaProofs.Lemmas.RuleMono
 namespace Pta
-
+open Pta.Alg
 /-! ### decomposition and duality -/
 
 
